@@ -327,4 +327,123 @@ theorem bind_thePlan {s : Shape} {c : Cfg} {i : Inputs V} (h : Hyp s c i) :
   simp only []
   rw [hmiss]
 
+/-- the final binding -/
+def finalB (s : Shape) (c : Cfg) (i : Inputs V) : Binding V := (kwL s c i ++ pkL s c i).reverse ++ preB s c i
+
+theorem finalB_keys_nodup {s : Shape} {c : Cfg} {i : Inputs V} (h : Hyp s c i) :
+    ((finalB s c i).map (·.1)).Nodup := by
+  obtain ⟨hpreN, hrestN, hdisj⟩ := List.nodup_append.mp (all_keys_nodup h)
+  unfold finalB
+  rw [List.map_append, List.map_reverse, List.map_append]
+  refine List.nodup_append.mpr ⟨nodup_reverse' hrestN, hpreN, ?_⟩
+  intro a ha b hb hab
+  exact hdisj b hb a (List.mem_reverse.mp ha) hab.symm
+
+theorem mem_finalB {s : Shape} {c : Cfg} {i : Inputs V} {x : String × V} :
+    x ∈ finalB s c i ↔ x ∈ kwL s c i ∨ x ∈ pkL s c i ∨ x ∈ preB s c i := by
+  unfold finalB
+  simp only [List.mem_append, List.mem_reverse]
+  constructor
+  · rintro ((h | h) | h)
+    · exact Or.inl h
+    · exact Or.inr (Or.inl h)
+    · exact Or.inr (Or.inr h)
+  · rintro (h | h | h)
+    · exact Or.inl (Or.inl h)
+    · exact Or.inl (Or.inr h)
+    · exact Or.inr h
+
+theorem key_mem_finalB {s : Shape} {c : Cfg} {i : Inputs V} (h : Hyp s c i) {p : Param} (hp : p ∈ s.params)
+    {w : V} (hm : (p.name, w) ∈ finalB s c i) :
+    (passed s c p = true ∧ i.fieldVar p.fieldId = some w) ∨ (packedP s c p = true ∧ i.loaded p.fieldId = some w) := by
+  have hN := h.names
+  have hval : ∀ q ∈ s.params, passed s c q = true → i.fieldVar q.fieldId = some (valOf i q) := by
+    intro q hq hpq
+    have := h.vars q hq hpq
+    cases hv : i.fieldVar q.fieldId with
+    | none => rw [hv] at this; cases this
+    | some v => simp [valOf, hv]
+  rcases mem_finalB.mp hm with hk | hk | hk
+  · obtain ⟨q, hq, hqe⟩ := List.mem_map.mp hk
+    have hqf := List.mem_filter.mp hq
+    have hqm : q ∈ s.params := List.dropWhile_subset _ hqf.1
+    have hn : q.name = p.name := congrArg Prod.fst hqe
+    have : q = p := name_inj hN hqm hp hn
+    subst this
+    have hw : valOf i q = w := congrArg Prod.snd hqe
+    exact Or.inl ⟨hqf.2, by rw [hval q hqm hqf.2, hw]⟩
+  · obtain ⟨q, hq, hqp, hname, hl⟩ := mem_pkL h.inj hk
+    have : p = q := name_inj hN hp hq hname
+    subst this
+    exact Or.inr ⟨hqp, hl⟩
+  · obtain ⟨q, hq, hqe⟩ := List.mem_map.mp hk
+    have hqm : q ∈ s.params := List.takeWhile_subset _ hq
+    have hqg : good s c q = true := List.all_eq_true.mp List.all_takeWhile q hq
+    simp only [good, Bool.and_eq_true] at hqg
+    have hn : q.name = p.name := congrArg Prod.fst hqe
+    have : q = p := name_inj hN hqm hp hn
+    subst this
+    have hw : valOf i q = w := congrArg Prod.snd hqe
+    exact Or.inl ⟨hqg.1, by rw [hval q hqm hqg.1, hw]⟩
+
+theorem hasPacked_of_packedP {s : Shape} {c : Cfg} {p : Param} (h : packedP s c p = true) : hasPacked s c = true := by
+  unfold packedP at h
+  cases hf : s.field? p.fieldId with
+  | none => rw [hf] at h; cases h
+  | some f =>
+    rw [hf] at h
+    simp only [Bool.and_eq_true] at h
+    unfold hasPacked
+    rw [List.any_eq_true]
+    exact ⟨f, List.mem_of_find?_eq_some hf, h.2⟩
+
+/-- **What each parameter is bound to.** -/
+theorem lookup_finalB {s : Shape} {c : Cfg} {i : Inputs V} (h : Hyp s c i) {p : Param} (hp : p ∈ s.params) :
+    (passed s c p = true → (finalB s c i).lookup p.name = i.fieldVar p.fieldId) ∧
+    (packedP s c p = true → (finalB s c i).lookup p.name = i.loaded p.fieldId) ∧
+    (passed s c p = false → packedP s c p = false → (finalB s c i).lookup p.name = Option.none) := by
+  have hnd := finalB_keys_nodup h
+  have hsplit : s.params.takeWhile (good s c) ++ s.params.dropWhile (good s c) = s.params :=
+    List.takeWhile_append_dropWhile
+  have hnone : (∀ w, (p.name, w) ∉ finalB s c i) → (finalB s c i).lookup p.name = Option.none := by
+    intro hno
+    apply lookup_none_of_not_mem
+    intro hm
+    obtain ⟨x, hx, hxe⟩ := List.mem_map.mp hm
+    exact hno x.2 (by rw [← hxe]; exact hx)
+  refine ⟨?_, ?_, ?_⟩
+  · intro hpass
+    have hv := h.vars p hp hpass
+    cases hfv : i.fieldVar p.fieldId with
+    | none => rw [hfv] at hv; cases hv
+    | some v =>
+      have hval : valOf i p = v := by simp [valOf, hfv]
+      have hmem : p ∈ s.params.takeWhile (good s c) ++ s.params.dropWhile (good s c) := by rw [hsplit]; exact hp
+      apply lookup_of_mem hnd
+      apply mem_finalB.mpr
+      rcases List.mem_append.mp hmem with hm | hm
+      · exact Or.inr (Or.inr (List.mem_map.mpr ⟨p, hm, by rw [hval]⟩))
+      · exact Or.inl (List.mem_map.mpr ⟨p, List.mem_filter.mpr ⟨hm, hpass⟩, by rw [hval]⟩)
+  · intro hpk
+    cases hl : i.loaded p.fieldId with
+    | some v =>
+      apply lookup_of_mem hnd
+      apply mem_finalB.mpr
+      refine Or.inr (Or.inl ?_)
+      unfold pkL
+      rw [hasPacked_of_packedP hpk]
+      exact (mem_packedDict h.inj).mpr ⟨p, hp, hpk, rfl, hl⟩
+    | none =>
+      apply hnone
+      intro w hm
+      rcases key_mem_finalB h hp hm with ⟨hpass, _⟩ | ⟨_, hl'⟩
+      · rw [passed_not_packedP hpass] at hpk; cases hpk
+      · rw [hl] at hl'; cases hl'
+  · intro hnp hnk
+    apply hnone
+    intro w hm
+    rcases key_mem_finalB h hp hm with ⟨hpass, _⟩ | ⟨hpk, _⟩
+    · rw [hnp] at hpass; cases hpass
+    · rw [hnk] at hpk; cases hpk
+
 end Adaptix.CallPlan
